@@ -422,6 +422,14 @@ class Exec(object):
         self.pc.append(f.t == v.t)
         return f
 
+    def name_bytes(self, v, hint="b"):
+        """give a compound byte-string term a fresh name (keeps path conditions small; E-matching is modulo equality)"""
+        if not isinstance(v, SBytes) or z3.is_const(v.t):
+            return v
+        f = self.fresh_bytes(hint)
+        self.pc.append(f.t == v.t)
+        return f
+
     # ------------------------------------------------------------------ obligations
     def oblige(self, name, goal, kind="assert", line=None, note=""):
         if goal is True:
@@ -584,7 +592,7 @@ class Exec(object):
                     b2 = self.fresh_int("sh")
                     self.pc.append(z3.If(T(a) <= T(b), b2.t == T(b), b2.t == T(a)))
                     b = b2
-            return slc(v, a, b)
+            return self.name_bytes(slc(v, a, b), "slice")
         if isinstance(v, (list, tuple)):
             if isinstance(lo, SInt) or isinstance(hi, SInt):
                 raise EngineLimit("symbolic slice of a concrete list")
@@ -1325,6 +1333,19 @@ class Exec(object):
         loops.sort(key=lambda n: (n.lineno, n.col_offset))
         for i, n in enumerate(loops):
             fr.loop_ord[id(n)] = i
+
+    def callq(self, qual, *args, **kwargs):
+        """call a repository function by qualified name (lemma harnesses)"""
+        return self.call(FuncRef(qual), list(args), kwargs, 0)
+
+    def call_noraise(self, label, qual, *args, **kwargs):
+        """call; any exception is an undischarged obligation `<lemma>#<label>#no-raise(<cls>)` and ends the path"""
+        try:
+            return self.call(FuncRef(qual), list(args), kwargs, 0)
+        except PyRaise as e:
+            self.oblige("%s#%s#no-raise(%s)" % (self.cur_func, label, short(e.cls)), False, "lemma-no-raise", e.line,
+                        note="%s raised at line %s" % (e.cls, e.line))
+            raise PathEnd()
 
     # contract application ------------------------------------------------------------------
     def apply_contract(self, c, fref, args, kwargs, line):
